@@ -11,6 +11,17 @@ DONE = {
   'implementation, extracted model and extracted spec are compared on every cell of the threshold arrangement and on random points.',
   'regenerated Gallina model + Coq theorems (lra cell decomposition) + differential check vs extracted model/spec',
   'CPython float semantics modelled as exact rationals of doubles (margin rule at rounding ties). Print Assumptions: closed under the global context.'),
+ 'C15': ('§5.C15',
+  'Every derivation in the library (sub-selection call, interface(db), many2sql([db,...]), many2sql call) rebuilds the new object from the '
+  'exported text of the selected rows; the model is snapshot = parse(export(rows)) over the regenerated C01/C02 leaf functions. Coq proves that '
+  'the snapshot holds one row per selected row, in order, each depending only on its own source row, and (on the functional store) that for '
+  'every history an object is changed only by operations addressed to it. The tie to the code is the history correspondence: after every step of '
+  'generated histories over up to 6 live objects, get(*) of every live object is compared with its own reference table, and every derived table with '
+  'the extracted model (exactly) and with the text-precision specification approx_row.',
+  'Gallina store model + Coq theorems (induction over histories) + history correspondence against the implementation',
+  'PARTIAL: independence is true by construction in the functional model; that the implementation gives every object its own connection is '
+  'observed by the history correspondence, not proved. Selections are evaluated by an independent Python predicate (their semantics is C03). '
+  'Empty selections hit known finding F17. Print Assumptions: closed under the global context.'),
  'C19': ('§5.C19',
   'The query built by get_intersection (INNER JOIN of all tables, equality on every match key for every pair of tables, one slice of the '
   'joined row per table) is modelled as a nested-loop join; Coq proves, for any number of structures and any match keys, the exact '
